@@ -311,6 +311,124 @@ def check_step(ctx, m, tags, op, cid):
     return exp
 
 
+ALIAS_OPS = [('append', 1), ('append', 2), ('appendElem', 0), ('appendElem', -1), ('extendSelf',), ('extend', 2), ('set', 0, 2), ('set', -1, 1), ('setElem', 0, -1), ('swap01',),
+             ('insert', 0, 2), ('insertElem', 1, 0), ('pop',), ('pop', 0), ('del', 0), ('reverse',), ('take', 0), ('take', -1), ('takeslice',), ('iterall',), ('clear',)]
+
+
+def alias_histories(ctx, m, which=None):
+    """histories on ONE persistent object (never rebuilt) in which the same value objects are stored twice, elements and slices are handed out
+    and kept, and the object is extended by itself: a Python list of immutable values is the model for the object AND for everything that was
+    handed out (an element or slice taken earlier keeps the values it had; a value object that was stored keeps its value)"""
+    cname = m.cname
+    for si, start in enumerate(((), (0,), (0, 1))):
+        if which is not None and si != which:
+            continue
+        for seq in itertools.product(range(len(ALIAS_OPS)), repeat=3):
+            cid = 'C10/%s/alias/start=%s/%s' % (cname, ''.join(map(str, start)) or 'empty', '.'.join(opname(ALIAS_OPS[i]) for i in seq))
+            if not ctx.want(cid):
+                continue
+            ctx.case(cid, key=cid)
+            pool = [m.build((t,)) for t in range(len(m.vals))]          # one value object per tag, stored wherever that tag goes
+            o = m.C.Empty()
+            model = []
+            for t in start:
+                o.append(pool[t])
+                model.append(t)
+            held = []                                                   # (description, object, expected tags)
+            bad = None
+            for step, i in enumerate(seq):
+                op = ALIAS_OPS[i]
+                k = op[0]
+                try:
+                    before = list(model)
+                    if k == 'append':
+                        model.append(op[1]); f = lambda: o.append(pool[op[1]])
+                    elif k == 'appendElem':
+                        t = model[op[1]]; model.append(t); f = lambda: o.append(o[op[1]])
+                    elif k == 'extendSelf':
+                        model.extend(list(model)); f = lambda: o.extend(o)
+                    elif k == 'extend':
+                        model.extend(EXT[op[1]]); f = lambda: o.extend(m.build(EXT[op[1]]))
+                    elif k == 'set':
+                        model[op[1]] = op[2]; f = lambda: o.__setitem__(op[1], pool[op[2]])
+                    elif k == 'setElem':
+                        model[op[1]] = model[op[2]]; f = lambda: o.__setitem__(op[1], o[op[2]])
+                    elif k == 'swap01':
+                        model[0], model[1] = model[1], model[0]
+
+                        def f():
+                            o[0], o[1] = o[1], o[0]
+                    elif k == 'insert':
+                        model.insert(op[1], op[2]); f = lambda: o.insert(op[1], pool[op[2]])
+                    elif k == 'insertElem':
+                        model.insert(op[1], model[op[2]]); f = lambda: o.insert(op[1], o[op[2]])
+                    elif k == 'pop':
+                        t = model.pop(*op[1:])
+
+                        def f(t=t):
+                            held.append(('the value popped at step %d' % step, o.pop(*op[1:]), (t,)))
+                    elif k == 'del':
+                        del model[op[1]]; f = lambda: o.__delitem__(op[1])
+                    elif k == 'reverse':
+                        model.reverse(); f = lambda: o.reverse()
+                    elif k == 'clear':
+                        model.clear(); f = lambda: o.clear()
+                    elif k == 'take':
+                        t = model[op[1]]
+
+                        def f(t=t):
+                            held.append(('the element [%d] taken at step %d' % (op[1], step), o[op[1]], (t,)))
+                    elif k == 'takeslice':
+                        ts = tuple(model[0:2])
+
+                        def f(ts=ts):
+                            held.append(('the slice [0:2] taken at step %d' % step, o[0:2], ts))
+                    elif k == 'iterall':
+                        ts = list(model)
+
+                        def f(ts=ts):
+                            for j, e in enumerate(o):
+                                held.append(('item %d of the iteration at step %d' % (j, step), e, (ts[j],)))
+                    else:
+                        raise HarnessError(op)
+                except IndexError:
+                    model[:] = before
+                    ok, r = call({'appendElem': lambda: o.append(o[op[1]]), 'set': lambda: o.__setitem__(op[1], pool[op[2]]), 'setElem': lambda: o.__setitem__(op[1], o[op[2]]),
+                                  'swap01': lambda: o.__setitem__(0, o[1]) if len(before) < 2 else None, 'insertElem': lambda: o.insert(op[1], o[op[2]]), 'pop': lambda: o.pop(*op[1:]),
+                                  'del': lambda: o.__delitem__(op[1]), 'take': lambda: o[op[1]]}.get(k, lambda: None))
+                    if ok and k != 'swap01':
+                        bad = 'step %d (%s) returned where a list raises IndexError' % (step, opname(op))
+                        break
+                    if m.read(o) != tuple(model):
+                        bad = 'step %d (%s) was refused but changed the object to %r' % (step, opname(op), m.read(o))
+                        break
+                    continue
+                ok, r = call(f)
+                ctx.count('transitions')
+                ctx.count('lockstep')
+                if not ok:
+                    bad = 'step %d (%s) raised %s: %s' % (step, opname(op), type(r).__name__, r)
+                    break
+                if m.read(o) != tuple(model):
+                    bad = 'after step %d (%s) the object holds %r, a list holds %r' % (step, opname(op), m.read(o), model)
+                    break
+                for what, h, ts in held:
+                    if m.read(h) != tuple(ts):
+                        bad = 'after step %d (%s) %s holds %r instead of %r' % (step, opname(op), what, m.read(h), list(ts))
+                        break
+                if bad:
+                    break
+                for t, pv in enumerate(pool):
+                    if m.read(pv) != (t,):
+                        bad = 'after step %d (%s) the value object of tag %d, which was only stored, holds %r' % (step, opname(op), t, m.read(pv))
+                        break
+                if bad:
+                    break
+            if bad:
+                ctx.fail(cid, 'list.' + ALIAS_OPS[seq[min(step, 2)]][0], 'mismatch', {'cls': cname, 'law': 'alias', 'len': len(start)},
+                         '%s from %s%r: %s' % ('.'.join(opname(ALIAS_OPS[i]) for i in seq), cname, list(start), bad))
+
+
 def check_observations(ctx, m, tags, full=True):
     cname = m.cname
     o = m.build(tags)
@@ -406,6 +524,7 @@ def shards(tier, seed):
             out.append(('obs', c, maxlen, ntags, k, nchunk))
     for c in CLASSES:
         out.append(('cross', c))
+        out += [('alias', c, si) for si in range(3)]
     if tier == 'thorough':
         for c in CLASSES:
             for start in range(5):
@@ -461,6 +580,9 @@ def run_shard(ctx, shard):
         cross_class(ctx, cname)
         return
     m = Model(cname)
+    if kind == 'alias':
+        alias_histories(ctx, m, shard[2])
+        return
     if kind == 'bfs':
         _, _, maxlen, ntags = shard
         ops = transitions(ntags)
